@@ -54,6 +54,7 @@ def run_groups(res, groups, want_dec=None, timeout=120, variant="hooks", recon=T
             return None
         k = dict(known_key_fn(hit[0], "mismatch"), enable_tpl_la=int(hit[0]["case"]["sets"].get("enable_tpl_la", 0)))
         k["first_item"] = (rej.get("event") or {}).get("k")      # index of the first packet / picture that differs
+        k["slow"] = hit[0]["case"].get("slow", "none")            # the pipeline kernel that was slowed down in the rejected run
         return k
     b.validate(res, "Observe", what, key_fn=kf)
     corpus.cleanup(rs)
